@@ -177,6 +177,8 @@ func lemmaTickMonotone(intervalStart uint64, intervalsPerDay uint32, t1, t2 uint
 //@ loop 0 invariant #cnt: WTCount == sle64(tgSerialized, 8)
 //@ loop 0 invariant #idx: 0 <= i && i <= WTCount && 16 <= cursor && cursor <= len(tgSerialized) && len(wtSets) == WTCount
 //@ loop 0 invariant #fits: tgFits(mem(tgSerialized), base(tgSerialized)+cursor, WTCount - i, base(tgSerialized)+len(tgSerialized))
+// one unfolding of tgFits, spelled out (keeps the call-site obligations of the loop body cheap)
+//@ loop 0 invariant #head: i < WTCount ==> (base(tgSerialized)+cursor+3 <= base(tgSerialized)+len(tgSerialized) && sle16(tgSerialized, cursor+1) >= 0 && base(tgSerialized)+cursor+3+sle16(tgSerialized, cursor+1)+8 <= base(tgSerialized)+len(tgSerialized) && sle32(tgSerialized, cursor+3+sle16(tgSerialized, cursor+1)) >= 0 && wtDSV(mem(tgSerialized), base(tgSerialized)+cursor) + 1 <= base(tgSerialized)+len(tgSerialized) && dsvFits(mem(tgSerialized), wtDSV(mem(tgSerialized), base(tgSerialized)+cursor) + 1, mem(tgSerialized)[wtDSV(mem(tgSerialized), base(tgSerialized)+cursor)], base(tgSerialized)+len(tgSerialized)))
 //@ loop 0 step #next: base(tgSerialized) + cursor == wtNext(mem(tgSerialized), base(tgSerialized) + prev(cursor))
 //@ loop 0 decreases WTCount - i
 //@ ensures #id: tgID == sle64(tgSerialized, 0)
